@@ -41,6 +41,19 @@ type monitor struct {
 	c05 map[int]*c05state
 
 	invalid map[string]string // block id -> perturbation that makes it invalid (ground truth)
+
+	// C02: prevotes each node has been given, per height/round/value, by validator address
+	recv     map[int]map[string]map[string]bool // node -> "h/r/blockkey" -> set of validator addresses
+	vals     map[int64]*types.ValidatorSet        // height -> validator set
+	signSeen map[int]int                         // node -> number of sign records already judged
+
+	// C06: state bytes per height (first replica) for the cross-replica comparison
+	stateBytes map[int64][]byte
+	stateFrom  map[int64]int
+	stateSeen  map[int]int64
+
+	// C11: evidence hashes committed so far
+	evCommitted map[string]int64
 }
 
 type c05state struct {
@@ -54,7 +67,9 @@ type c05state struct {
 }
 
 func newMonitor(s *sim) *monitor {
-	return &monitor{s: s, decided: map[int64][]byte{}, decidedBy: map[int64]int{}, audited: map[int]int64{}, signs: map[int][]signRec{}, c05: map[int]*c05state{}, invalid: map[string]string{}}
+	return &monitor{s: s, decided: map[int64][]byte{}, decidedBy: map[int64]int{}, audited: map[int]int64{}, signs: map[int][]signRec{}, c05: map[int]*c05state{}, invalid: map[string]string{},
+		recv: map[int]map[string]map[string]bool{}, vals: map[int64]*types.ValidatorSet{}, signSeen: map[int]int{},
+		stateBytes: map[int64][]byte{}, stateFrom: map[int64]int{}, stateSeen: map[int]int64{}, evCommitted: map[string]int64{}}
 }
 
 func (m *monitor) onCrash(n *simNode, ci *crashInfo) {}
@@ -95,7 +110,140 @@ func (m *monitor) onByzProposal(p *byzProposal) {
 }
 func (m *monitor) onDeliverProposal(n *simNode, p *types.Proposal) {}
 func (m *monitor) onDeliverPart(n *simNode, h int64, p *types.Part)  {}
-func (m *monitor) onDeliverVote(n *simNode, v *types.Vote)           {}
+func (m *monitor) onDeliverVote(n *simNode, v *types.Vote) {
+	if v.Type != tmproto.PrevoteType {
+		return
+	}
+	m.notePrevote(n.idx, v.Height, v.Round, blockKey(v.BlockID), v.ValidatorAddress)
+}
+
+func blockKey(b types.BlockID) string {
+	if len(b.Hash) == 0 {
+		return "nil"
+	}
+	return fmt.Sprintf("%X/%d/%X", []byte(b.Hash), b.PartSetHeader.Total, []byte(b.PartSetHeader.Hash))
+}
+
+func (m *monitor) notePrevote(node int, h int64, r int32, key string, addr []byte) {
+	if m.recv[node] == nil {
+		m.recv[node] = map[string]map[string]bool{}
+	}
+	k := fmt.Sprintf("%d/%d/%s", h, r, key)
+	if m.recv[node][k] == nil {
+		m.recv[node][k] = map[string]bool{}
+	}
+	m.recv[node][k][string(addr)] = true
+}
+
+// polkaFor reports whether the prevotes given to the node for (h, r, value) come from
+// validators holding more than two thirds of the power.
+func (m *monitor) polkaFor(node int, h int64, r int32, key string) bool {
+	vals := m.vals[h]
+	if vals == nil {
+		return true // unknown set: cannot judge
+	}
+	total, got := new(big.Int), new(big.Int)
+	set := m.recv[node][fmt.Sprintf("%d/%d/%s", h, r, key)]
+	for _, v := range vals.Validators {
+		total.Add(total, big.NewInt(v.VotingPower))
+		if set[string(v.Address)] {
+			got.Add(got, big.NewInt(v.VotingPower))
+		}
+	}
+	return new(big.Int).Mul(got, big.NewInt(3)).Cmp(new(big.Int).Mul(total, big.NewInt(2))) > 0
+}
+
+// judgeSignatures applies the justification rules of C02 to the signatures released since
+// the last step.
+func (m *monitor) judgeSignatures(n *simNode) {
+	e := m.s.env
+	recs := m.signs[n.idx]
+	from := m.signSeen[n.idx]
+	m.signSeen[n.idx] = len(recs)
+	if !e.Checking("C02") {
+		return
+	}
+	for i := from; i < len(recs); i++ {
+		rec := recs[i]
+		switch {
+		case rec.typ == int(tmproto.PrevoteType):
+			m.notePrevote(n.idx, rec.h, rec.r, recKey(rec), n.addr)
+			// R3: latest earlier round of this height with a precommit for a block
+			var lockR int32 = -1
+			lockB := ""
+			for _, o := range recs[:i] {
+				if o.h == rec.h && o.typ == int(tmproto.PrecommitType) && o.block != nilBlock && o.r < rec.r && o.r > lockR {
+					lockR, lockB = o.r, o.block
+				}
+			}
+			if lockR >= 0 && rec.block != lockB {
+				justified := false
+				for k := range m.recv[n.idx] {
+					var kh int64
+					var kr int32
+					var kb string
+					if _, err := fmt.Sscanf(k, "%d/%d/", &kh, &kr); err != nil {
+						continue
+					}
+					kb = k[len(fmt.Sprintf("%d/%d/", kh, kr)):]
+					if kh == rec.h && kr > lockR && normKey(kb) != lockB && m.polkaFor(n.idx, kh, kr, kb) {
+						justified = true
+					}
+				}
+				if !justified {
+					e.Report("C02", "prevote-against-lock", "node %d precommitted %s in round %d of height %d and then prevoted %s in round %d without having been given a +2/3 prevote quorum for anything else in a round after %d", n.idx, short(lockB), lockR, rec.h, short(rec.block), rec.r, lockR)
+				}
+			}
+			e.Count("probe.c02_prevote_judged")
+		case rec.typ == int(tmproto.PrecommitType) && rec.block != nilBlock:
+			if !m.polkaFor(n.idx, rec.h, rec.r, denorm(rec.block)) {
+				e.Report("C02", "precommit-without-polka", "node %d precommitted %s in round %d of height %d without having been given prevotes for it from more than 2/3 of the power in that round", n.idx, short(rec.block), rec.r, rec.h)
+			}
+			if n.isAlive() {
+				rs := n.cs.GetRoundState()
+				holds := rs.Height > rec.h
+				if rs.Height == rec.h {
+					for _, b := range []*types.Block{rs.LockedBlock, rs.ProposalBlock, rs.ValidBlock} {
+						if b != nil && fmt.Sprintf("%X", []byte(b.Hash())) == rec.block[:64] {
+							holds = true
+						}
+					}
+				}
+				if !holds {
+					e.Report("C02", "precommit-without-block", "node %d precommitted %s in round %d of height %d but does not hold that block", n.idx, short(rec.block), rec.r, rec.h)
+				}
+			}
+			e.Count("probe.c02_precommit_judged")
+		}
+	}
+}
+
+const nilBlock = "/0/"
+
+func recKey(r signRec) string { return denorm(r.block) }
+
+// sign records render a nil block id as "/0/"; the delivery tally uses "nil".
+func denorm(b string) string {
+	if b == nilBlock {
+		return "nil"
+	}
+	return b
+}
+func normKey(k string) string {
+	if k == "nil" {
+		return nilBlock
+	}
+	return k
+}
+func short(b string) string {
+	if b == nilBlock || b == "nil" {
+		return "nil"
+	}
+	if len(b) > 12 {
+		return b[:12]
+	}
+	return b
+}
 
 // onWALWrite sees every record the state machine hands to its WAL.
 func (s *sim) onWALWrite(n *simNode, msg cs.WALMessage, synced bool) {}
@@ -184,11 +332,18 @@ func (m *monitor) afterStep() {
 			if e.Checking("C01") {
 				m.checkCommitQuorum(n, h, meta)
 			}
+			if _, first := m.decidedBy[h]; first && m.decidedBy[h] == n.idx {
+				m.checkDecidedBlock(n, h, meta)
+			}
 			m.audited[n.idx] = h
 		}
 		n.lastHeight = bh
 		if n.cs != nil && n.isAlive() {
 			rs := n.cs.GetRoundState()
+			if m.vals[rs.Height] == nil && rs.Validators != nil {
+				m.vals[rs.Height] = rs.Validators.Copy()
+			}
+			m.checkReplica(n)
 			e.State(n.idx, rs.Height-s.genDoc.InitialHeight, rs.Round, rs.Step, rs.LockedRound >= 0, rs.ValidRound >= 0, n.inc > 0)
 		}
 		if f := n.failureMsg(); f != "" && (e.Checking("C03") || e.Checking("C05")) {
@@ -197,10 +352,38 @@ func (m *monitor) afterStep() {
 			e.Count("probe.consensus_failure")
 		}
 	}
+	for _, n := range s.nodes {
+		m.judgeSignatures(n)
+	}
 	if e.Checking("C05") {
 		for _, n := range s.nodes {
 			m.stepC05(n)
 		}
+	}
+}
+
+// checkReplica: cross-replica determinism (C06). After the same height every correct node
+// must hold byte-identical state; also after crash/restart/handshake replay and catch-up.
+func (m *monitor) checkReplica(n *simNode) {
+	e := m.s.env
+	if !e.Checking("C06") {
+		return
+	}
+	st := n.cs.GetState()
+	h := st.LastBlockHeight
+	if h == 0 || m.stateSeen[n.idx] == h {
+		return
+	}
+	m.stateSeen[n.idx] = h
+	b := st.Bytes()
+	if ref, ok := m.stateBytes[h]; ok {
+		if !bytes.Equal(ref, b) {
+			e.Fail("C06", "replica-state-divergence", "after height %d node %d and node %d hold different states although they decided the same block (app hash %X vs state of first replica)", h, m.stateFrom[h], n.idx, st.AppHash)
+		}
+		e.Count("probe.replica_state_compared")
+	} else {
+		m.stateBytes[h] = b
+		m.stateFrom[h] = n.idx
 	}
 }
 
@@ -343,3 +526,45 @@ func (m *monitor) finish() {
 }
 
 var _ simapp.Call
+
+// checkDecidedBlock: per decided block (once): size limit (C06), evidence rules (C11).
+func (m *monitor) checkDecidedBlock(n *simNode, h int64, meta *types.BlockMeta) {
+	e := m.s.env
+	blk := n.bstore.LoadBlock(h)
+	if blk == nil {
+		return
+	}
+	if e.Checking("C06") {
+		if params, err := n.sstore.LoadConsensusParams(h); err == nil && params.Block.MaxBytes > 0 {
+			if int64(meta.BlockSize) > params.Block.MaxBytes {
+				e.Fail("C06", "block-over-size-limit", "decided block %d is %d bytes, the limit in force is %d", h, meta.BlockSize, params.Block.MaxBytes)
+			}
+		}
+	}
+	if e.Checking("C11") {
+		seen := map[string]bool{}
+		for _, ev := range blk.Evidence.Evidence {
+			k := fmt.Sprintf("%X", ev.Hash())
+			if seen[k] {
+				e.Fail("C11", "evidence-twice-in-block", "block %d carries evidence %s twice", h, k[:12])
+			}
+			seen[k] = true
+			if prev, ok := m.evCommitted[k]; ok && prev != h {
+				e.Fail("C11", "evidence-in-two-blocks", "evidence %s is committed in block %d and again in block %d", k[:12], prev, h)
+			}
+			m.evCommitted[k] = h
+			if dve, ok := ev.(*types.DuplicateVoteEvidence); ok {
+				genuine := false
+				for _, b := range m.s.byz {
+					if bytes.Equal(b.addr, dve.VoteA.ValidatorAddress) {
+						genuine = true
+					}
+				}
+				if !genuine || dve.VoteA.BlockID.Equals(dve.VoteB.BlockID) || dve.VoteA.Height != dve.VoteB.Height || dve.VoteA.Round != dve.VoteB.Round || dve.VoteA.Type != dve.VoteB.Type || !bytes.Equal(dve.VoteA.ValidatorAddress, dve.VoteB.ValidatorAddress) {
+					e.Fail("C11", "bogus-evidence-committed", "block %d carries duplicate-vote evidence against %X that does not show two conflicting votes of a validator that equivocated", h, dve.VoteA.ValidatorAddress)
+				}
+			}
+			e.Count("probe.evidence_committed")
+		}
+	}
+}
